@@ -662,10 +662,11 @@ class HistoryWorld:
                 src = EM.find_rep(sp_, sstep[0], sstep[1], 0) if sp_ is not None else None
                 if src is None:
                     return 'lost'
-                new = EM.text_order(src.clone())
-                new.key = key
+                new = src.clone()
                 if EM.has_empty(new):
                     sut.count_unknown = True     # (C11.write counts elements: see EM.has_empty)
+                new = EM.text_order(new)
+                new.key = key
             elif 'inst' in v:
                 i = v['inst']
                 if i.get('text') is None:
